@@ -198,8 +198,8 @@ def pe(e, parent=0):
         return e[1]
     if k == 'un':
         op = e[1]
-        p = PREC['neg' if op == 'neg' else 'not']
-        s = ('-' if op == 'neg' else 'not ') + pe(e[2], p + 1)
+        p = PREC['neg' if op in ('neg', 'pos') else 'not']
+        s = {'neg': '-', 'pos': '+', 'not': 'not '}[op] + pe(e[2], p + 1)
         if parent > 0:
             return '(' + s + ')'
         return s
@@ -262,7 +262,7 @@ class Printer:
         self.ind = indent
 
     def emit(self, depth, text, sid=None):
-        pad = ' ' * (self.ind * depth)
+        pad = ('\t' * depth) if self.prog.get('tabs') else ' ' * (self.ind * depth)
         self.lines.append(pad + text)
         if sid is not None:
             self.pos[sid] = (len(self.lines), len(pad) + 1)
@@ -366,7 +366,7 @@ class Printer:
             return
         if k == 'multi':
             # several simple statements on one line; record each position
-            pad = ' ' * (self.ind * depth)
+            pad = ('\t' * depth) if self.prog.get('tabs') else ' ' * (self.ind * depth)
             col = len(pad) + 1
             parts = []
             for x in s['stmts']:
@@ -381,7 +381,7 @@ class Printer:
         if t is not None:
             if k == 'ifl':
                 # positions of nested simple statements on the same line
-                pad = ' ' * (self.ind * depth)
+                pad = ('\t' * depth) if self.prog.get('tabs') else ' ' * (self.ind * depth)
                 head = 'if ' + pe(s['cond']) + ' then '
                 col = len(pad) + 1 + len(head)
                 for x in s['then']:
